@@ -13,7 +13,7 @@ from props import c17 as H
 from props.c17 import Unrepresentable, msg_lit, NumProxy, Md5Proxy, new_decoder, decode, db, payloads
 
 PROPS_FILES = ["props/C18.v"]
-ALWAYS_SEARCH = False
+ALWAYS_SEARCH = True
 RULE = ("messages = real decoder output for every definition that has a field with a physical quantity (all 28 quantities; "
         "every definition with a TEMPERATURE/PRESSURE/ANGLE/SPEED field in every run) x payload classes (all-zero, all-ones "
         "= absent, random, one field at a boundary value) x preference maps over convertible and non-convertible "
